@@ -1,12 +1,12 @@
 #!/bin/bash
-# usage: tools/seeded_matrix.sh [quick|thorough]  -- applies every patch under seeded/ and seeded_informed/ to
+# usage: tools/seeded_matrix.sh [quick|thorough]  -- applies every patch under seeded/, seeded_informed/ and seeded_wave3/ to
 # /repo in turn, runs the check of the property the change was aimed at, restores /repo, prints one line each.
 TIER=${1:-quick}
 cd /verif
 if ! git -C /repo diff --quiet; then echo "/repo has uncommitted changes; refusing" >&2; exit 2; fi
 restore() { git -C /repo checkout -- . ; }
 trap restore EXIT
-for d in seeded/* seeded_informed/*; do
+for d in seeded/* seeded_informed/* seeded_wave3/*; do
   [ -f "$d/patch.diff" ] || continue
   name=$(basename "$d"); id=$(echo "$name" | grep -oE "C[0-9]{2}" | head -1)
   git -C /repo apply "/verif/$d/patch.diff" || { echo "$name: PATCH-DOES-NOT-APPLY"; continue; }
